@@ -48,6 +48,9 @@ def run(rep: Report, tier: str) -> None:
 	rule_f(rep, idx, pm, tm)
 	rule_g(rep, idx, pm)
 	rule_chain(rep, idx, pm)
+	rule_primary_closed(rep, tm)
+	rule_comparison_chain(rep, idx, pm, gm)
+	rule_keyword_arguments(rep, idx, pm, tm)
 
 
 # ---- (a) precedence ---------------------------------------------------------------------------------------------------
@@ -532,3 +535,91 @@ def rule_chain(rep, idx, pm) -> None:
 		r.skip('fold-site', f.where, 'no render(..., vars={operator: ...}) inside a loop of proc_binary_operation_expression')
 	back = fold.backward_consumers(f.node, set(f.params()[1:]))
 	r.check(not back, 'front-to-back', f.where, f'the chain is consumed from the end ({[unparse(b) for b in back][:2]})')
+
+
+def _top_level_text(pat: str) -> str:
+	"""the pattern with every bracketed / quoted region removed"""
+	out, depth, q = '', 0, None
+	for ch in pat:
+		if q:
+			if ch == q:
+				q = None
+			continue
+		if ch in '"\'':
+			q = ch
+			continue
+		if ch in '([{':
+			depth += 1
+			continue
+		if ch in ')]}':
+			depth -= 1
+			continue
+		if depth == 0:
+			out += ch
+	return out
+
+
+def rule_primary_closed(rep, tm) -> None:
+	"""A call, subscript, attribute reference or literal is a primary expression in Python: it binds tighter than every operator. The C++ text a template
+	renders for such a node is pasted into operator expressions as it is, so it must itself be a primary/postfix expression (or be parenthesised);
+	a template that renders `c ? a : b` or `a + b` for a call is regrouped by the C++ compiler as soon as the call is an operand."""
+	import re
+	r = rep.rule('C01/primary-templates-render-closed', 'every template rendered for a Python primary expression (func_call/, indexer/, relay/, reference/, literal/) renders a C++ primary/postfix expression or a parenthesised one: no top-level `?:` or binary operator', floor=60)
+	ops = r' \? | (\+|-|\*|/|%|==|!=|&&|\|\||<|>|<=|>=|&|\||\^|<<|>>) '
+	for name in sorted(tm.asts):
+		if not name.startswith(('func_call/', 'indexer/', 'relay/', 'reference/', 'literal/')) or name.split('/')[-1].startswith('_'):
+			continue
+		try:
+			branches = tm.branches(name)
+		except Exception as e:  # unparseable shapes are reported by template-exists
+			r.skip(f'{name}', (tm.relpath(name), 1), f'branches not readable: {e}')
+			continue
+		for cond, parts in branches:
+			pat = ''
+			for p_ in parts:
+				pat += p_[1] if p_[0] == 'text' else ('X' if p_[0] in ('var', 'expr') else '')
+			pat = pat.strip().rstrip(';').strip()
+			if pat.count('\n') > 0:
+				r.ok(f'{name}[{cond[:30]}]', (tm.relpath(name), 1), message='multi-line (statement-level) output')
+				continue
+			top = _top_level_text(pat)
+			m = re.search(ops, top)
+			r.check(m is None, f'{name}[{cond[:30]}]', (tm.relpath(name), 1), f'{name}.j2 renders `{pat[:100]}` for a Python primary expression: the top-level `{m.group(0).strip() if m else ""}` is not parenthesised, so as an operand (`2 * d.get("b", 3)`, `d.get("a", 0) + 1`) the C++ compiler groups it with the surrounding operator (`2 * d.contains("b") ? d["b"] : 3`)', pat[:120])
+
+
+def rule_comparison_chain(rep, idx, pm, gm) -> None:
+	"""`a < b < c` is ONE comparison node with two operators; Python evaluates it as `a < b and b < c`. Rendering the chain with the generic left fold
+	gives C++ `(a < b) < c` (bool compared with c). A comparison chain must be rendered as a conjunction or be rejected."""
+	from vlib.norm import helper_closure
+	r = rep.rule('C01/comparison-chain-semantics', 'a comparison node with more than one operator is not rendered by the plain left fold of binary operators: the handler joins the pairwise comparisons with && or refuses chains', floor=1)
+	chains = [lv for lv in ladder(gm) if lv.kind == 'binary' and {'<', '=='} <= set(lv.tokens)]
+	h = pm.handlers.get('on_comparison')
+	if not chains or h is None:
+		r.skip('chain', (PY2CPP, 1), 'no comparison level in the grammar ladder or no on_comparison handler')
+		return
+	members = helper_closure(h, 3)
+	conj = any(isinstance(n, ast.Constant) and isinstance(n.value, str) and '&&' in n.value for g in members for n in ast.walk(g.node))
+	refuses = False
+	for g in members:
+		for n in ast.walk(g.node):
+			if isinstance(n, ast.If) and any(isinstance(x, ast.Call) and unparse(x.func) == 'len' for x in ast.walk(n.test)) and any(isinstance(x, ast.Raise) for x in ast.walk(n)) and 'Comparison' in unparse(g.node):
+				refuses = True
+	r.check(conj or refuses, 'on_comparison:chain', h.where, f'on_comparison renders every comparison through {[g.name for g in members][1:]} — the left fold used for arithmetic — with no conjunction and no rejection of chains: `a < b < c` is emitted verbatim and C++ evaluates `(a < b) < c` (for 3, 2, 1: Python False, C++ true)', 'a < b < c')
+
+
+def rule_keyword_arguments(rep, idx, pm, tm) -> None:
+	"""`f(b=1, a=2)` binds by name in Python. The C++ call is positional, so the label must either be used to reorder the arguments into parameter order
+	or a labelled argument out of order must be rejected; dropping the label emits the values in call order."""
+	from vlib.norm import helper_closure
+	r = rep.rule('C01/keyword-arguments-honoured', 'the label of a keyword argument is used: printed/consulted by expression/argument.j2, or on_func_call reorders or rejects labelled arguments', floor=1)
+	h = pm.handlers.get('on_argument')
+	if h is None or not tm.parses('expression/argument'):
+		r.skip('argument', (PY2CPP, 1), 'no on_argument handler / expression/argument.j2')
+		return
+	n = tm.nodes
+	used_in_template = any(x.name == 'label' for x in tm.asts['expression/argument'].find_all(n.Name))
+	fc = pm.handlers.get('on_func_call')
+	# a use of the labels counts only where the callee's parameters are consulted as well (str.format's named placeholders read labels for another purpose)
+	used_in_call = fc is not None and any(any(isinstance(x, ast.Attribute) and x.attr in ('label', 'labels') for x in ast.walk(g.node)) and any(isinstance(x, ast.Attribute) and x.attr in ('parameters', 'parameter_at') for x in ast.walk(g.node)) for g in helper_closure(fc, 2))
+	used_in_handler = any(isinstance(x, ast.Name) and x.id == 'label' and isinstance(x.ctx, ast.Load) for x in ast.walk(h.node) if not isinstance(x, ast.Dict)) and any(isinstance(x, (ast.If, ast.IfExp, ast.Raise)) for x in ast.walk(h.node))
+	r.check(used_in_template or used_in_call or used_in_handler, 'label-used', h.where, 'on_argument passes `label` to expression/argument.j2, which prints only `{{ value }}`, and on_func_call never looks at the labels: `sub(b=1, a=2)` is emitted as `sub(1, 2)` — the values reach the wrong parameters (Python 1, C++ -1)', 'sub(b=1, a=2)')
